@@ -128,6 +128,29 @@ CLAIMS = {
              "delegated to tuple.__getitem__.",
         technique="construction-site matchers + CFG reachability + flag-sensitive must-pass-through + R-FALSY lint",
         design="2/C07"),
+    "C05": dict(
+        text="'Exactly what Python computes' is obtained by delegation, and the delegation is decided to be wired correctly for "
+             "every operator and operand form: 30+ dunders dispatch the operator/_reverse_ helper of their own name (helpers "
+             "return `other OP self-element`; only * may reuse the forward form), the three kernel comprehensions compute "
+             "op_func(x, y) with x from self and y from other over zip(strict=True) after a raising length comparison and "
+             "nothing is returned for a sequence operand before that comparison, reflected addition puts the other operand "
+             "on the left, table arithmetic maps over exactly self.cols() / pairs columns after a width check, all 65 "
+             "_String/_Date wrappers apply the method of their own name with the caller's arguments and keep None, "
+             "MethodProxy/__getattr__ look the attribute up on the ELEMENT, and every self./super(). call resolves.",
+        note="Numeric equality of results is delegated to operator.* and not decided; dtype of results is C03/C04.",
+        technique="dispatch-table and template matchers over the AST + CFG guard analysis + MRO call resolution",
+        design="2/C05"),
+    "C08": dict(
+        text="Atomicity over every failure point is decided on the CFG: in Vector.__setitem__ nothing that may raise (explicit "
+             "raise, consumption of key/value, validation, any unaudited call) is reachable from any write event on self "
+             "(stores, calls whose effect summary writes self, tracker calls); in rename_columns no raise is reachable from a "
+             "name store. Key dispatch covers the six key forms and ends in SerifTypeError, every index is normalised and "
+             "range-checked before it is recorded; name/orientation are never stored; the accept/widen/reject table is "
+             "evaluated exactly per (dtype, running target, value type) by abstract interpretation of the validation loop "
+             "(shared with C03); Table.__setitem__ resolves columns first and only delegates to column writes.",
+        note="Equality with list assignment as values (range/slice arithmetic, typeutils.slice_length) is numeric and not decided.",
+        technique="CFG reachability between mutation events and may-raise events + effect summaries + finite abstract interpretation",
+        design="2/C08"),
 }
 
 PENDING = "static rules for this property are designed (DESIGN.md section 2) but not yet built in this round; not claimed yet"
